@@ -52,6 +52,7 @@ fn allow_list(i: usize) -> Vec<Method> {
 
 fn call_name(c: usize) -> String {
     match c {
+        c if c >= 1000 => format!("set_body({} bytes)", c - 1000),
         0..=5 => format!("set_body(shape{})", c),
         6 => "set_content_type(text/plain)".into(),
         7 => "set_content_type(application/json)".into(),
@@ -137,6 +138,14 @@ fn mname(m: Method) -> &'static str {
 
 fn apply(r: &mut Response, s: &mut Shadow, c: usize) {
     match c {
+        c if c >= 1000 => {
+            // a body of exactly c - 1000 bytes (size sweeps: totals around pages and powers of two)
+            let n = c - 1000;
+            let b: Vec<u8> = (0..n).map(|k| b'A' + ((k * 7 + n) % 53) as u8).collect();
+            s.length = Some(b.len());
+            s.body = Some(b.clone());
+            r.set_body(Body::new(b));
+        }
         0..=5 | 18 => {
             let b = body_shape(if c == 18 { 6 } else { c });
             s.length = Some(b.len());
@@ -457,6 +466,39 @@ pub fn run(ctx: &mut Ctx) {
                         }
                     }
                 }
+            }
+        }
+    }
+    // ---- size sweep: every body length 0..=4400 and the neighbourhoods of 8 KiB, 16 KiB, 64 KiB, under four
+    // header configurations, so that every TOTAL serialized size around a page / power of two occurs as well
+    let mut sizes: Vec<usize> = (0..=4400).collect();
+    for c in [8192usize, 16384, 32768, 65536, 131072] {
+        sizes.extend(c - 140..=c + 3);
+    }
+    let configs: [&[usize]; 4] = [&[], &[11, 8, 9], &[6, 14, 15], &[7, 10]];
+    for (si, n) in sizes.iter().enumerate() {
+        idx += 1;
+        if !ctx.mine(idx) {
+            continue;
+        }
+        if quick && *n > 4400 && si % 3 != 0 {
+            continue;
+        }
+        for (ci, cfg) in configs.iter().enumerate() {
+            let mut calls: Vec<usize> = cfg.to_vec();
+            calls.push(1000 + n);
+            let version = ((si + ci) % 2) as u8;
+            let code_idx = [1usize, 3, 0, 5][(si + ci) % 4];
+            ctx.rep.count("size_sweep_responses");
+            if check_one(ctx, version, code_idx, &calls, false).is_none() && ctx.only_case.is_none() {
+                bad += 1;
+                if bad > 20 {
+                    return;
+                }
+            }
+            // followed by a second response on the same stream: the reader must find the boundary
+            if ci == 0 {
+                check_concat(ctx, &[(version, code_idx, calls.clone()), (1, 1, vec![1])]);
             }
         }
     }
